@@ -572,7 +572,7 @@ Record tablec := mkTableC { tc_table : table; tc_items : list titem }.
 Definition wf_tcons (c : option (string * string)) : bool :=
   match c with Some (kw, n) => is_kw kw "CONSTRAINT" && is_plain n | None => true end.
 Definition wf_tnames (norm : bool) (n : tnames) : bool :=
-  forallb (fun w => is_plain w && negb (String.eqb (nms norm w) "ASC") && negb (String.eqb (nms norm w) "DESC")
+  forallb (fun w => is_plain w && negb (String.eqb (upper (nms norm w)) "ASC") && negb (String.eqb (upper (nms norm w)) "DESC")
                     && negb (String.eqb (nms norm w) "constraint")) (tnames_list n).
 Definition wf_titem (norm : bool) (i : titem) : bool :=
   match i with
